@@ -34,15 +34,21 @@ pub fn search_once(b: &Board, k: u64) -> Option<(Option<chess_movegen::ChessMove
 
 pub fn line(out: &mut dyn Write, b: &Board, k: u64) {
     match search_once(b, k) {
-        Some((mv, sc, d, polls)) => writeln!(
-            out,
-            "SR\t{}\t{k}\t{}\t{}\t{d}\t{polls}",
-            xfen(b),
-            mv.map(mv_str).unwrap_or("-".into()),
-            enc(sc)
-        )
-        .unwrap(),
-        None => writeln!(out, "SR\t{}\t{k}\tTRAP\t-\t0\t0", xfen(b)).unwrap(),
+        Some((mv, sc, d, polls)) => {
+            // what callers behind the stable ABI (bot_fight, plugins) see of this result
+            let ev = chess_api::EvaluatedMove::new(mv, sc);
+            writeln!(
+                out,
+                "SR\t{}\t{k}\t{}\t{}\t{d}\t{polls}\t{}\t{}",
+                xfen(b),
+                mv.map(mv_str).unwrap_or("-".into()),
+                enc(sc),
+                ev.chess_move().map(mv_str).unwrap_or("-".into()),
+                enc(ev.score())
+            )
+            .unwrap()
+        }
+        None => writeln!(out, "SR\t{}\t{k}\tTRAP\t-\t0\t0\t-\t-", xfen(b)).unwrap(),
     }
 }
 
@@ -63,6 +69,15 @@ const MATE_IN_ONE: &[&str] = &[
     "2kr4/ppp5/8/8/8/8/8/K6q b - - 0 1",
     "8/8/8/8/8/1k6/8/K6r b - - 10 40",
     "k7/P7/K7/8/8/8/8/1R6 w - - 0 1",
+    // mate delivered by a capture that leaves only minor pieces (the insufficient-material shortcut runs before the mate test)
+    "kn6/1p6/1K6/8/4B3/8/8/8 w - - 0 1",
+    "8/8/8/4b3/8/1k6/1P6/KN6 b - - 0 1",
+    // a check whose only answer is an en-passant capture of the checking pawn: NOT a mate in one
+    "8/8/6pp/7k/5P1p/5K2/6P1/8 w - - 0 1",
+    "8/6p1/5k2/5p1P/7K/6PP/8/8 b - - 0 1",
+    // stalemate tricks and under-promotion mates
+    "5k2/5P2/5K2/8/8/8/8/8 w - - 0 1",
+    "7k/5P2/6K1/8/8/8/8/8 w - - 0 1",
 ];
 
 pub fn ladder(k_max: u64) -> Vec<u64> {
@@ -164,22 +179,103 @@ pub fn mirror_line(out: &mut dyn Write, b: &Board, k_max: u64) {
     let xf = xfen(b);
     let mf = mirror_fen(&xf);
     let Ok(mb) = mf.parse::<Board>() else {
-        writeln!(out, "MR\t{xf}\t{mf}\tMIRROR-REJECTED\t-").unwrap();
+        writeln!(out, "MR\t{xf}\t{mf}\tMIRROR-REJECTED\t-\t0\t-\t-").unwrap();
         return;
     };
     let ks = ladder(k_max);
     match (per_depth(b, &ks), per_depth(&mb, &ks)) {
         (Some(a), Some(m)) => {
             let f = |v: &Vec<(u16, String)>| v.iter().map(|(d, s)| format!("{d}:{s}")).collect::<Vec<_>>().join(",");
-            writeln!(out, "MR\t{xf}\t{mf}\t{}\t{}", f(&a), f(&m)).unwrap()
+            // final answers at the largest budget (a colour that gets no move although its mirror does is an asymmetry too)
+            let fin = |bb: &Board| match search_once(bb, k_max) {
+                Some((mv, sc, d, _)) => format!("{}|{}|{d}", if mv.is_some() { "some" } else { "-" }, enc(sc)),
+                None => "TRAP".to_string(),
+            };
+            writeln!(out, "MR\t{xf}\t{mf}\t{}\t{}\t{k_max}\t{}\t{}", f(&a), f(&m), fin(b), fin(&mb)).unwrap()
         }
-        _ => writeln!(out, "MR\t{xf}\t{mf}\tTRAP\t-").unwrap(),
+        _ => writeln!(out, "MR\t{xf}\t{mf}\tTRAP\t-\t0\t-\t-").unwrap(),
     }
+}
+
+/// positions whose material sits exactly on / next to the evaluation's thresholds (1800 for the leading side),
+/// and roots where the side to move is being mated by force
+fn threshold_roots(rng: &mut Rng, n: usize) -> Vec<Board> {
+    let sets: [&[u8]; 8] = [
+        b"QRPPPP", b"RRPPPPPPPP", b"BBNNPPPPP", b"QRPPP", b"QRPPPPP", b"QBNPPP", b"RRBPPPPP", b"QRBN",
+    ];
+    let fixed = [
+        "8/8/8/8/8/6k1/r7/7K w - - 0 1", "8/8/8/8/8/2k5/7r/K7 b - - 0 1", "7k/8/8/8/8/8/5r2/K5r1 w - - 0 1",
+        "6k1/8/8/8/8/8/r7/1r5K w - - 0 1", "k7/7R/1K6/8/8/8/8/8 b - - 0 1", "7K/8/5k2/8/8/8/8/6q1 w - - 0 1",
+    ];
+    let mut v: Vec<Board> = fixed.iter().filter_map(|s| s.parse().ok()).collect();
+    let mut tries = 0;
+    while v.len() < n + fixed.len() && tries < n * 50 {
+        tries += 1;
+        let lead = sets[rng.below(sets.len() as u64) as usize];
+        let mut sq: [Option<char>; 64] = [None; 64];
+        let mut put = |rng: &mut Rng, c: char, sq: &mut [Option<char>; 64]| {
+            for _ in 0..30 {
+                let s = rng.below(64) as usize;
+                if sq[s].is_none() && !((c == 'P' || c == 'p') && (s < 8 || s >= 56)) {
+                    sq[s] = Some(c);
+                    return;
+                }
+            }
+        };
+        put(rng, 'K', &mut sq);
+        put(rng, 'k', &mut sq);
+        let white_leads = rng.chance(1, 2);
+        for &c in lead {
+            let ch = if white_leads { c as char } else { (c as char).to_ascii_lowercase() };
+            put(rng, ch, &mut sq);
+        }
+        // the trailing side gets a little material
+        for _ in 0..rng.below(4) {
+            let c = *rng.pick(b"PPNBR");
+            let ch = if white_leads { (c as char).to_ascii_lowercase() } else { c as char };
+            put(rng, ch, &mut sq);
+        }
+        let mut s = String::new();
+        for r in (0..8).rev() {
+            let mut missing = 0;
+            for f in 0..8 {
+                match sq[r * 8 + f] {
+                    Some(c) => {
+                        if missing > 0 {
+                            s.push_str(&missing.to_string());
+                            missing = 0;
+                        }
+                        s.push(c);
+                    }
+                    None => missing += 1,
+                }
+            }
+            if missing > 0 {
+                s.push_str(&missing.to_string());
+            }
+            if r != 0 {
+                s.push('/');
+            }
+        }
+        let fen = format!("{s} {} - - 0 1", if rng.chance(1, 2) { 'w' } else { 'b' });
+        if let Ok(b) = fen.parse::<Board>() {
+            v.push(b);
+        }
+    }
+    v
 }
 
 pub fn mirrors(out: &mut dyn Write, rng: &mut Rng, n: usize, k_max: u64) {
     let mut cnt = 0u64;
     let mut skipped = 0u64;
+    for b in threshold_roots(rng, n / 3 + 2) {
+        if sorted_moves(&b).iter().any(|m| m.piece.is_some()) {
+            skipped += 1;
+            continue;
+        }
+        cnt += 1;
+        mirror_line(out, &b, k_max);
+    }
     positions(rng, n, |_r, b, l, _| {
         if l.iter().any(|m| m.piece.is_some()) || b.half_move_clock() >= 90 {
             skipped += 1; // the property excludes roots with a promotion move
